@@ -24,8 +24,7 @@ TRUSTED = ['numpy.linalg.eigh is an oracle: the returned (D, V) are validated pe
            "the model's (projected) Choi matrix (A V = V D, V^dagger V = 1, residual <= 1e-11*scale)",
            'floating-point rounding of the implementation is absorbed in the comparison tolerance (1e-11 relative to '
            'the largest entry), not proved',
-           'the btype label: theorems assume the label GGM is only attached to Basis.ggm(d) (label_ok); the code does '
-           'not check it (known finding c15-ggm-label-trust)']
+           'Basis.__eq__ (np.allclose with atol = eps d^3) is modelled by basis_is_ggm_flag and compared per case']
 ASSUMPTIONS = ['theorems are size-independent; sampled correspondence uses d <= 4 in Coq (d = 13 closed-form path on '
                '24 sampled rows) and d <= 5 / d = 13 for the property-level predicates',
                'CP/cCP verdict theorems are exact statements about the eigenvalues of a valid decomposition; verdicts of '
@@ -326,11 +325,18 @@ def coq_bool(x):
 def coq_liouville(name, d, is_ggm, Us, b, L, big):
     O = emit.ops(big)
     sc = max(1.0, np.abs(L).max())
-    return (f"Definition {name} : N*N*N :=\n  let O := {O} in\n"
-            f"  let bs := rmats O {carr_lit(nd(b))}%Z in\n"
-            f"  let Us := rmats O {carr_lit(Us)}%Z in\n"
-            f"  tallyR O {emit.tol_lit(TOL * sc, big)} {rvec_lit(np.asarray(L).reshape(-1))}%Z\n"
-            f"    (flat3 (liouville_stack O {d} {coq_bool(is_ggm)} Us bs)).\n")
+    txt = (f"Definition {name} : N*N*N :=\n  let O := {O} in\n"
+           f"  let bs := rmats O {carr_lit(nd(b))}%Z in\n"
+           f"  let Us := rmats O {carr_lit(Us)}%Z in\n"
+           f"  tadd (tallyR O {emit.tol_lit(TOL * sc, big)} {rvec_lit(np.asarray(L).reshape(-1))}%Z\n"
+           f"    (flat3 (liouville_stack O {d} {coq_bool(is_ggm)} Us bs)))\n")
+    if len(b) == d * d:
+        # the `basis == Basis.ggm(d)` test of the path switch (evaluated by the code only for d > 12) vs the model's flag
+        eq = bool(b == ff.Basis.ggm(d))
+        txt += f"  (tallyR O {emit.tol_lit(0.5, big)} [{dylit(1.0 if eq else 0.0)}]%Z [basis_is_ggm_flag O {d} bs]).\n"
+    else:
+        txt += "  (0, 0, 0)%N.\n"
+    return txt
 
 
 def coq_closed(name, d, U, Lc, big):
@@ -351,9 +357,11 @@ def coq_closed_rows(name, d, U, rows, Lrows, big):
     return (f"Definition {name} : N*N*N :=\n  let O := {O} in\n"
             f"  let U := rmat O {carr_lit(U)}%Z in\n"
             f"  let gb := ggm_basis O {d} in\n"
-            f"  let sel := map (fun i => nthm gb i) {sel} in\n"
-            f"  tallyR O {emit.tol_lit(TOL, big)} {rvec_lit(Lrows.reshape(-1))}%Z\n"
-            f"    (flat2 (liouville_representation O {d} true U sel)).\n")
+            f"  let L := liouville_representation O {d} true U gb in\n"
+            f"  tadd (tallyC O {emit.tol_lit(TOL, big)} {carr_lit(nd(ff.Basis.ggm(d))[rows].reshape(-1))}%Z\n"
+            f"          (flat3 (map (fun i => nthm gb i) {sel})))\n"
+            f"       (tallyR O {emit.tol_lit(TOL, big)} {rvec_lit(Lrows.reshape(-1))}%Z\n"
+            f"          (flat2 (map (fun i => nthv L i) {sel}))).\n")
 
 
 def coq_choi(name, d, S, b, choi, big):
@@ -389,31 +397,37 @@ def fail(kind, obs, sig, det, inp):
     return dict(kind=kind, observable=obs, signature=sig, detail=det, input=inp)
 
 
-def known_cases():
-    """deterministic demonstrations of the two findings (see docs/notes/C15.md)"""
+def regression_cases():
+    """the two defects found by this property and repaired in /repo (63446ae, ee93ac7): must stay repaired"""
     out = []
-    # (1) closed-form path trusts the btype label: a re-ordered Gell-Mann basis keeps btype 'GGM'
     d = 13
     perm = np.arange(d * d)
     perm[[1, 2]] = perm[[2, 1]]
-    b = ff.Basis.ggm(d)[perm]
-    if b.btype == 'GGM' and b.isherm and b.isorthonorm:
-        Lid = so.liouville_representation(np.eye(d, dtype=complex), b)
-        err = float(np.abs(Lid - np.eye(d * d)).max())
-        if err > 1e-10:
-            out.append(fail('prop', 'identity (d=13, re-ordered GGM basis)', 'c15-ggm-label-trust',
-                            'liouville_representation(identity, Basis.ggm(13)[perm]) differs from the identity matrix '
-                            'by %.3g: the closed-form path is selected by the inherited btype label' % err,
-                            dict(case='label', d=d, swap=[1, 2])))
-    # (2) absolute default tolerance: a valid Lindblad generator of norm ~ 100 is reported not cCP
+    b = ff.Basis.ggm(d)[perm]                       # Hermitian, orthonormal, inherits btype 'GGM'
+    Lid = so.liouville_representation(np.eye(d, dtype=complex), b)
+    err = float(np.abs(Lid - np.eye(d * d)).max())
+    if err > 1e-10:
+        out.append(fail('prop', 'identity (d=13, re-ordered GGM basis)', 'c15-ggm-label-trust',
+                        'liouville_representation(identity, Basis.ggm(13)[perm]) differs from the identity matrix '
+                        'by %.3g: the closed-form path is selected by the inherited btype label' % err,
+                        dict(case='label', d=d, swap=[1, 2])))
+    bs = ff.Basis.ggm(d)[1:]                        # sliced basis keeps the label as well
+    U = np.diag(np.exp(1j * np.linspace(0, 1, d)))
+    Ls = so.liouville_representation(U, bs)
+    ref = np.einsum('iab,bc,jcd,da->ij', nd(bs), U, nd(bs), U.conj().T).real
+    if Ls.shape != ref.shape or np.abs(Ls - ref).max() > 1e-10:
+        out.append(fail('prop', 'sliced GGM basis (d=13)', 'c15-ggm-label-trust',
+                        'liouville_representation(U, Basis.ggm(13)[1:]) has shape %s / differs from tr(C_i U C_j U^dagger)'
+                        % (Ls.shape,), dict(case='label', d=d, swap=[1, 2])))
     X, Y, Z = util.paulis[1:]
     b = ff.Basis.pauli(1)
-    S, _ = liou_of_map(lindblad_phi(Z, [X + 1j * Z], [10.0]), b)
-    flag, (D, V) = so.liouville_is_cCP(S, b, return_eig=True)
-    if not flag:
-        out.append(fail('prop', 'cCP verdict (Lindblad generator, rate 10)', 'c15-verdict-abs-tolerance',
-                        'liouville_is_cCP returns False for H=Z, L=X+iZ, gamma=10 (min eigenvalue %.3g, default atol %.3g)'
-                        % (D.min(), b._atol), dict(case='abs-tol', gamma=10.0)))
+    for g in (10.0, 1e3, 1e6):
+        S, _ = liou_of_map(lindblad_phi(Z * g / 10, [X + 1j * Z], [g]), b)
+        flag, (D, V) = so.liouville_is_cCP(S, b, return_eig=True)
+        if not flag:
+            out.append(fail('prop', 'cCP verdict (Lindblad generator, rate %g)' % g, 'c15-verdict-abs-tolerance',
+                            'liouville_is_cCP returns False for H=Z*%g, L=X+iZ, gamma=%g (min eigenvalue %.3g)'
+                            % (g / 10, g, D.min()), dict(case='abs-tol', gamma=g)))
     return out
 
 
@@ -519,11 +533,11 @@ def run(ctx):
         if bool(so.liouville_is_CP(S, b, atol=atol)) != bool(cp) or bool(so.liouville_is_cCP(S, b, atol=atol)) != bool(ccp):
             failures.append(fail('prop', 'return_eig', 'c15-return-eig', 'verdict depends on return_eig', inp))
         for nm, flag, D, A in (('CP', cp, D1, choi), ('cCP', ccp, D2, None)):
-            sig = verdict_class(flag, expected[nm], D, (atol or b._atol))
+            sig = verdict_class(flag, expected[nm], D, (atol or b._atol * max(1.0, np.abs(D).max())))
             if sig:
                 failures.append(fail('prop', '%s verdict (%s)' % (nm, mcls), sig,
                                      'liouville_is_%s = %s for a %s map (expected %s); min eigenvalue %.3g, threshold %.3g'
-                                     % (nm, bool(flag), mcls, expected[nm], D.min(), -(atol or b._atol)), inp))
+                                     % (nm, bool(flag), mcls, expected[nm], D.min(), -(atol or b._atol * max(1.0, np.abs(D).max()))), inp))
         if d <= 3:
             defs.append(('m%d' % i, lambda big, i=i, d=d, S=S, b=b, choi=choi: coq_choi('m%d' % i, d, S, b, choi, big)))
             meta.append(('liouville_to_choi vs model', 'c15-corr-choi', inp))
@@ -562,9 +576,11 @@ def run(ctx):
         tag('pulse/%s/%s' % (which, '/'.join('%s=%s' % (k, tags[k]) for k in sorted(tags) if k in
                                                ('d', 'basis', 'mode', 'N', 'order', 'npulses'))))
         evaluations += 1
-    # ---- deterministic demonstrations of the known findings
-    failures += known_cases()
-    evaluations += 2
+    # ---- regression cases of the two repaired findings
+    failures += regression_cases()
+    evaluations += 5
+    tag('regression/ggm-label')
+    tag('regression/abs-tolerance')
     # ---- evaluate the model inside Coq (hardware-float intervals, then 160-bit for undecided cases)
     texts = [(n, f(False)) for n, f in defs]
     res = ctx.eval_tallies(HEADER, texts, per_file=3)
@@ -607,7 +623,7 @@ def replay(ctx, rep):
         return False, 'replay names a broken obligation: %s' % rep.get('observable')
     case = inp.get('case')
     if case in ('label', 'abs-tol'):
-        bad = [f for f in known_cases() if f['input']['case'] == case]
+        bad = [f for f in regression_cases() if f['input']['case'] == case]
         return (not bad), ('replay reproduces: %s' % bad[0]['detail'] if bad else 'replay: holds')
     if case == 'liouville':
         b = ff.Basis(_arr(inp['basis']), btype=inp.get('btype'))
@@ -624,7 +640,7 @@ def replay(ctx, rep):
         cp, (D1, _) = so.liouville_is_CP(S, b, return_eig=True, atol=atol)
         ccp, (D2, _) = so.liouville_is_cCP(S, b, return_eig=True, atol=atol)
         for nm, flag, D, e in (('CP', cp, D1, exp[0]), ('cCP', ccp, D2, exp[1])):
-            sig = verdict_class(flag, e, D, (atol or b._atol))
+            sig = verdict_class(flag, e, D, (atol or b._atol * max(1.0, np.abs(D).max())))
             if sig:
                 bad.append((sig, '%s verdict %s, expected %s, min eigenvalue %.3g' % (nm, bool(flag), e, D.min())))
         return (not bad), ('replay reproduces: %s' % bad if bad else 'replay: predicates hold on this input')
@@ -677,7 +693,7 @@ def search(ctx, broken):
             cp, (D1, _) = so.liouville_is_CP(S, b, return_eig=True)
             ccp, (D2, _) = so.liouville_is_cCP(S, b, return_eig=True)
             for nm, flag, D in (('CP', cp, D1), ('cCP', ccp, D2)):
-                sig = verdict_class(flag, expected[nm], D, b._atol)
+                sig = verdict_class(flag, expected[nm], D, b._atol * max(1.0, np.abs(D).max()))
                 if sig == 'c15-verdict-wrong':
                     bad.append((nm + ' verdict', '%s verdict %s for a %s map' % (nm, bool(flag), mcls)))
             if bad:
